@@ -306,7 +306,11 @@ class proxy( object ):
     def close_gateway( self, exc=None ):
         """Discard gateway; also forces re-reading of identity value upon next gateway connection"""
         if self.gateway is not None:
-            self.gateway.close()
+            try:
+                self.gateway.close()
+            except Exception as cexc:
+                # eg. the Forward Close of a connected gateway, on a connection that is already dead
+                log.info( "Closing EtherNet/IP CIP gateway %s failed: %s", self.gateway, cexc )
             ( log.warning if exc else log.normal )(
                 "Closed EtherNet/IP CIP gateway %s due to: %s%s",
                 self.gateway, exc or "(unknown)",
